@@ -46,10 +46,26 @@ def rerun(ctx, rec):
     return bool(bad), new
 
 
+def rerun_many(ctx, recs):
+    """re-execute the sessions in ONE fresh process, in order, and judge the LAST one"""
+    vh = ctx.build()
+    d = ctx.sub("replayctx")
+    i, o = os.path.join(d, "in.ndjson"), os.path.join(d, "out.ndjson")
+    with open(i, "w") as fh:
+        for r in recs:
+            fh.write(json.dumps(r) + "\n")
+    ctx.run([vh, "live-rerun", "-in", i, "-out", o], timeout=1800)
+    new = json.loads(open(o).read().splitlines()[-1])
+    new["judge"] = recs[-1].get("judge", "model")
+    bad = ctx.validate("Trace_Live", [new], shards=1)
+    return bool(bad), new
+
+
 def confirm_factory(ctx):
     def confirm(f):
         ok, _ = rerun(ctx, f.payload["session"])
         return ok
+    confirm.in_context = lambda before, f: rerun_many(ctx, before + [f.payload["session"]])[0]
     return confirm
 
 
@@ -64,6 +80,7 @@ def validate_sessions(ctx, recs, what):
                              % (what, r["id"], r["lvl"], r["cap"], r["sysex"], r["as"], r["tc"], nbytes, r["panic"],
                                 json.dumps(info.get("expected"))[:300] if info else ""),
                              {"family": "live", "session": r}))
+        fails[-1].before = recs[max(0, idx - 400):idx]
     # prefer short sessions for reporting
     fails.sort(key=lambda f: sum(len(c["bytes"]) for c in f.payload["session"]["chunks"]))
     return fails
@@ -133,6 +150,9 @@ def closure(ctx, gp, judge="model"):
 
 
 def replay(ctx, payload):
-    ok, new = rerun(ctx, payload["payload"]["session"])
+    if payload["payload"].get("context"):
+        ok, new = rerun_many(ctx, payload["payload"]["context"] + [payload["payload"]["session"]])
+    else:
+        ok, new = rerun(ctx, payload["payload"]["session"])
     print(json.dumps({"reexecuted": new})[:3000])
     return ok
